@@ -16,7 +16,8 @@ from __future__ import annotations
 
 import ast
 
-from .model import AnalysisError
+from .loopnorm import normalise_loops
+from .model import AnalysisError, FuncInfo
 from .report import Ctx
 from .symflow import Flow, Printer, flow_of, parse_expr
 
@@ -35,6 +36,10 @@ MEMFLUSH = (f"(FlushSignal(inclusive=False, address=PR.pc_plus_imm) if {REDIRECT
             "(FlushSignal(inclusive=False, address=PR.result) if PR.control_unit_signals.alu_to_pc else "
             "(FlushSignal(inclusive=False, address=PR.pc_plus_instruction_length) if PR.exit_code is not None else None)))")
 ANYFLUSH = f"({REDIRECT} or PR.control_unit_signals.alu_to_pc or PR.exit_code is not None)"
+BUSY = ("any(not isinstance(o.instruction, EmptyInstruction) for o in "
+        "P1[P2 + 1 + int(PR.is_of_stalled_value):-1])")
+ECALL_NOW = f"(isinstance(PR.instruction, ECALL) and not {BUSY})"
+ECALL_RES = "PR.instruction.process_ecall(architectural_state=STATE)"
 WBDATA = ("(PR.pc_plus_instruction_length if PR.control_unit_signals.wb_src == 0 else "
           "(PR.memory_read_data if PR.control_unit_signals.wb_src == 1 else "
           "(PR.result if PR.control_unit_signals.wb_src == 2 else "
@@ -98,6 +103,16 @@ SPEC = {
             **_fwd("register_read_data_1", "register_read_data_2", "imm", "write_register", "control_unit_signals",
                    "branch_prediction", "pc_plus_instruction_length", "address_of_instruction"),
         },
+        "drain": {
+            "stall_signal": f"(StallSignal(2) if (isinstance(PR.instruction, ECALL) and {BUSY}) else None)",
+            "exit_code": f"({ECALL_RES} if ({ECALL_NOW} and type({ECALL_RES}) is not str and type({ECALL_RES}) is int) else None)",
+            "flush_signal": (f"(FlushSignal(inclusive=False, address=PR.pc_plus_instruction_length) "
+                             f"if ({ECALL_NOW} and type({ECALL_RES}) is not str and type({ECALL_RES}) is int) else None)"),
+        },
+        "drain_effects": [
+            ("call", ECALL_RES, f"GUARD and {ECALL_NOW}", "process_ecall runs once the older instructions have drained"),
+            ("aug", f"STATE.output += {ECALL_RES}", f"GUARD and {ECALL_NOW} and type({ECALL_RES}) is str", "a string result is appended to the output"),
+        ],
         "effects": [],
         "once": ["alu_compute"],
     },
@@ -175,20 +190,27 @@ def stage_flow(ctx: Ctx, cls: str) -> Flow:
     cache = ctx.__dict__.setdefault("_stageflow", {})
     if cls not in cache:
         f = ctx.model.method(cls, "behavior", own=True)
-        cache[cls] = flow_of(f, ctx.model, ALIASES)
+        g = FuncInfo(f.name, f.qname, normalise_loops(f.node), f.module, f.cls)
+        cache[cls] = flow_of(g, ctx.model, ALIASES)
     return cache[cls]
 
 
-def datapath_rule(ctx: Ctx, rid: str, fields_only: dict | None = None) -> None:
-    """fields_only: optional {stage class: set of latch fields / effect descriptions} restriction (for other properties)."""
+def datapath_rule(ctx: Ctx, rid: str, fields_only: dict | None = None, section: str = "latch", desc: str | None = None) -> None:
+    """fields_only: optional {stage class: set of latch fields / effect descriptions} restriction (for other properties).
+    section: "latch" (+"effects") is the datapath proper; "drain" (+"drain_effects") the ECALL hold in EX."""
     m = ctx.model
-    r = ctx.rule(rid, "stage datapath: every latch field and architectural effect of the five stages is the documented "
-                      "function of the input latch (compared as normal forms)")
+    r = ctx.rule(rid, desc or "stage datapath: every latch field and architectural effect of the five stages is the documented "
+                              "function of the input latch (compared as normal forms)")
     sp = _spec_printer(m)
+    eff_section = "effects" if section == "latch" else section + "_effects"
     for cls, spec in SPEC.items():
+        if section not in spec:
+            continue
         only = None if fields_only is None else fields_only.get(cls)
         if fields_only is not None and only is None:
             continue
+        if section != "latch" and only is None:
+            only = set(spec[section]) | {w for _, _, _, w in spec.get(eff_section, [])}
         f = m.method(cls, "behavior", own=True)
         fl = stage_flow(ctx, cls)
         ab = spec["abbr"]
@@ -208,7 +230,7 @@ def datapath_rule(ctx: Ctx, rid: str, fields_only: dict | None = None) -> None:
         if len(full) != 1:
             continue
         kws = {k.arg: k.value for k in full[0].value.keywords if k.arg}  # type: ignore[union-attr]
-        for fld, src in spec["latch"].items():
+        for fld, src in spec[section].items():
             if only is not None and fld not in only:
                 continue
             want = _canon_spec_expr(sp, src)
@@ -216,7 +238,7 @@ def datapath_rule(ctx: Ctx, rid: str, fields_only: dict | None = None) -> None:
             r.check(got == want, f"{ab}|{fld}", f.loc(kws[fld] if fld in kws and hasattr(kws[fld], "lineno") else full[0].node),
                     f"{ab} latch field `{fld}` is `{_clip(fl.show(kws[fld]) if fld in kws else got)}`, "
                     f"the datapath requires `{_clip(Printer(m, [], {}).show(parse_expr(src)))}`")
-        for kind, src, cond, what in spec["effects"]:
+        for kind, src, cond, what in spec.get(eff_section, []):
             if only is not None and what not in only:
                 continue
             want = _canon_spec_effect(sp, kind, src)
@@ -232,7 +254,7 @@ def datapath_rule(ctx: Ctx, rid: str, fields_only: dict | None = None) -> None:
                 detail = f"it happens when `{_clip(fl.show_cond(same[0].cond))}`"
             r.check(ok, f"{ab}|{what}", f.loc(where),
                     f"{ab}: {what}: expected `{src}` exactly when `{_clip(cond.replace('GUARD', spec['guard']))}`; {detail}")
-        if only is None:
+        if only is None and section == "latch":
             for name in spec["once"]:
                 calls = [e for e in fl.effects if e.kind == "call" and isinstance(e.expr, ast.Call)
                          and isinstance(e.expr.func, ast.Attribute) and e.expr.func.attr == name]
@@ -240,7 +262,7 @@ def datapath_rule(ctx: Ctx, rid: str, fields_only: dict | None = None) -> None:
                 r.check(ok, f"{ab}|once:{name}", f.loc(calls[0].node if calls else None),
                         f"{ab}: `{name}` must be called exactly once, exactly under the stage guard "
                         f"(found {[fl.show_cond(c.cond) for c in calls]})")
-    if fields_only is None:
+    if fields_only is None and section == "latch":
         r.floor(60)
 
 
